@@ -22,11 +22,11 @@ FLOAT_INPUTS = ("x", "x2")
 @st.composite
 def cases(draw, tier):
     return dict(prog=draw(dsl.unit_programs()), seed=draw(st.integers(0, 10**6)), train=draw(st.booleans()),
-                prior_replace=draw(st.integers(0, 7)) == 0, nnroot=draw(st.integers(0, 5)) == 0)
+                prior_replace=draw(st.integers(0, 7)) == 0, nnroot=draw(st.integers(0, 5)) == 0, input_grad=draw(st.integers(0, 3)) != 0)
 
 
-def prep(inputs):
-    return {k: (v.clone().requires_grad_() if k in FLOAT_INPUTS else v.clone()) for k, v in inputs.items()}
+def prep(inputs, rg=True):
+    return {k: (v.clone().requires_grad_(rg) if k in FLOAT_INPUTS else v.clone()) for k, v in inputs.items()}
 
 
 def grads(y, tensors):
@@ -125,6 +125,9 @@ def actual_nodes(gm):
 
 def run(c) -> CaseResult:
     res = CaseResult()
+    rg = bool(c.get("input_grad", True))   # do the float inputs require a gradient? (a first layer fed by data: only the parameters do)
+    if not rg:
+        res.labels.append("inputs-without-grad")
     prog = c["prog"]
     feats = feature(prog)
     ftag = "+".join(feats) or "plain"
@@ -144,6 +147,8 @@ def run(c) -> CaseResult:
         m = dsl.nn_root(m)
         res.labels.append("root=nn.Sequential(program)")
     m.train(c["train"])
+    if not rg and not any(True for _ in m.parameters()):
+        rg = True   # nothing would require a gradient at all
     inputs = dsl.make_inputs(prog, c["seed"])
 
     def call(mod, d):
@@ -154,21 +159,21 @@ def run(c) -> CaseResult:
     try:
         um = unit_scale(m)
         P = dict(um.named_parameters())
-        fl = prep(inputs)
+        fl = prep(inputs, rg)
         y = call(um, fl)
-        diff = [fl[k] for k in FLOAT_INPUTS if k in fl] + list(P.values())
+        diff = [fl[k] for k in FLOAT_INPUTS if k in fl and fl[k].requires_grad] + list(P.values())
         g = grads(y, diff)
     except Exception as e:  # noqa: BLE001
         res.fail(exc_bucket("C16.raises", e).replace("outside-library", "via-dynamo")[:300], f"{type(e).__name__}: {str(e)[:300]}\n{m._verif_source}")
         return res
     # ---- (2) same function as the hand conversion (outputs and all gradients)
-    fr = prep(inputs)
+    fr = prep(inputs, rg)
     yr = dsl.evaluate(prog, dsl.named_tensors(um), fr, dsl.Unit())
-    gr = grads(yr, [fr[k] for k in FLOAT_INPUTS if k in fr] + list(P.values()))
+    gr = grads(yr, [fr[k] for k in FLOAT_INPUTS if k in fr and fr[k].requires_grad] + list(P.values()))
     if not close(y.detach(), yr.detach()):
         res.fail("C16.value", f"[{ftag}] unit_scale(module) returned {y.item():.7g}, the User-Guide hand conversion gives {yr.item():.7g}\n{m._verif_source}")
     else:
-        names = [k for k in FLOAT_INPUTS if k in fl] + list(P.keys())
+        names = [k for k in FLOAT_INPUTS if k in fl and fl[k].requires_grad] + list(P.keys())
         for name, a, b in zip(names, g, gr):
             if not close(a, b):
                 res.fail("C16.grad", f"[{ftag}] gradient wrt {name} differs from the hand conversion\n{m._verif_source}")
